@@ -2,6 +2,7 @@
 //! transcript framing), C08 (identity credentials), C18 (attribute statement
 //! proofs and presentations). See /verif/DESIGN.md section 5 and
 //! /verif/harness/ENGINE_GUIDE.md.
+mod c07;
 mod c11;
 mod common;
 
@@ -17,14 +18,14 @@ fn floors(v: &[(&str, u64)]) -> Vec<(String, u64)> { v.iter().map(|(k, n)| (k.to
 impl Engine for E {
     fn name(&self) -> &'static str { "eng-crypto" }
 
-    fn props(&self) -> Vec<&'static str> { vec!["C11"] }
+    fn props(&self) -> Vec<&'static str> { vec!["C11", "C07"] }
 
     fn plan(&self, prop: &str, tier: Tier) -> Plan {
         let quick = tier == Tier::Quick;
         let mut p = Plan { assumptions: vec![SOUNDNESS.into(), RNG.into()], ..Plan::default() };
         match prop {
             "C11" => {
-                p.cases = if quick { 96 } else { 1800 };
+                p.cases = if quick { 96 } else { 3400 };
                 p.timeout_s = if quick { 900 } else { 3 * 3600 };
                 p.rule = "case = one statement instance over BLS12-381 G1 with fresh generators/keys: idx%8 in {0,4} aggregated range proof (n,m cycled over {1,2,4,8,16,32,64}x{1,2,4,8}), 1 a<=b, 5 v in [a,b) (boundary plans cycled), {2,6} set membership, {3,7} set non-membership (sizes 1,2,3,4,5,8,9,16,17; v first/last/some/adjacent/absent). Ground truth by integer arithmetic in the harness. evaluations = judged prover+verifier executions (honest proof must verify; every single-component perturbation of proof/commitments/n/m/generators/keys/transcript/version and every proof the library's prover emits for a false statement must not verify). distinct_nontrivial = distinct true instances (hash of parameters and proof) whose honest proof verified and whose perturbations were all run".into();
                 p.assumptions.push("ground truth is u64/u128 integer comparison and set lookup in the harness; commitments to out-of-range values are computed by the harness with CommitmentKey::hide_worker (trusted: a 2-base multiexp)".into());
@@ -97,6 +98,14 @@ impl Engine for E {
                     ("perturb.set_nonmember.L", 10 * s),
                 ]);
             }
+            "C07" => {
+                p.cases = if quick { 128 } else { 3000 };
+                p.timeout_s = if quick { 900 } else { 3 * 3600 };
+                p.rule = "case idx%16 selects the protocol (dlog, com_eq, com_eq_different_groups, com_eq_sig, com_enc_eq(+adaptive-generator forgery attempt), com_lin, com_mult, com_ineq, aggregate_dlog, vcom_eq, ps_sig_known, enc_trans, And(dlog,com_mult), And(And(com_eq,aggregate_dlog),com_eq_sig), Replicate(com_eq|dlog), V1 framing pairs); a valid statement/witness is built by the harness over BLS12-381 (witnesses boundary weighted 0/1/r-1/random, sizes 0/1/2/17/40..64 where a size exists), proved with the library under a random context (legacy or V1 transcript, random domain, optional prefix message). evaluations = judged executions: honest verify must accept and leave the context in the prover's state; verify with each statement field / context / challenge / response scalar altered must reject; `public` on original vs perturbed statement through a recording TranscriptProtocol wrapping the real oracles must give different streams and challenges; framing: pairs of distinct V1 operation sequences with equal skeleton must give different challenges. distinct_nontrivial = distinct honest proofs (hash of proof bytes) whose whole perturbation list ran".into();
+                p.assumptions.push("statement/witness instances are built by the harness from the public constructors (with_valid_data is cfg(test)); com_lin's response is computed by the harness because ComLinSecret cannot be constructed outside the crate".into());
+                p.assumptions.push("the recording transcript forwards every operation to the real RandomOracle / TranscriptProtocolV1 and records an injective encoding of the operation stream; legacy-oracle streams are only compared for library-produced sequences".into());
+                p.floors = c07::floors(if quick { 1 } else { 10 });
+            }
             _ => {}
         }
         p
@@ -105,6 +114,7 @@ impl Engine for E {
     fn run_child(&self, ctx: &ChildCtx, out: &mut Shard) {
         match ctx.prop.as_str() {
             "C11" => c11::run(ctx, out),
+            "C07" => c07::run(ctx, out),
             _ => out.inconclusive.push("unknown property".into()),
         }
     }
